@@ -214,6 +214,114 @@ Qed.
 
 End Proofs.
 
+(* ------------------------------------------------------------------ CRS construction:
+   new T[..] arrays (junk) filled row by row -- every cell is written before anyone reads it *)
+Lemma firstn_S_nth {X} (l : list X) j d : j < length l -> firstn (Datatypes.S j) l = firstn j l ++ [nth j l d].
+Proof.
+  revert j; induction l as [|a l IH]; intros j H; simpl in *; [lia|].
+  destruct j as [|j]; [reflexivity|]. cbn [firstn nth app]. rewrite <- (IH j) by lia. reflexivity.
+Qed.
+Lemma wr_app_len {X} (a : list X) b t v j : length a = j -> wr (a ++ b :: t) j v = Ok (a ++ v :: t).
+Proof. intros <-. apply wr_app. Qed.
+Lemma wr_fill {X} (src junk : list X) j d :
+  j < length src -> length junk = length src ->
+  wr (firstn j src ++ skipn j junk) j (nth j src d) = Ok (firstn (Datatypes.S j) src ++ skipn (Datatypes.S j) junk).
+Proof.
+  intros Hj Hl. rewrite (skipn_cons_nth junk j d) by lia.
+  rewrite wr_app_len by (rewrite firstn_length; lia).
+  rewrite (firstn_S_nth src j d Hj), <- app_assoc. reflexivity.
+Qed.
+Lemma nth_mono (l : list nat) n : (forall i, i < n -> nth i l 0%nat <= nth (Datatypes.S i) l 0%nat) ->
+  forall j i, i <= j -> j <= n -> nth i l 0%nat <= nth j l 0%nat.
+Proof.
+  intros Hm j. induction j as [|j IH]; intros i Hij Hj.
+  - replace i with 0%nat by lia. lia.
+  - destruct (Nat.eq_dec i (Datatypes.S j)) as [->|Hne]; [lia|].
+    specialize (IH i ltac:(lia) ltac:(lia)). specialize (Hm j ltac:(lia)). lia.
+Qed.
+
+Section Copy.
+Context {S : Scalar}.
+Local Notation vec := (vec S).
+
+Lemma copy_range (cr jc : list nat) (vr jv : vec) : forall k b,
+  (b + k <= length cr)%nat -> length vr = length cr -> length jc = length cr -> length jv = length cr ->
+  for_res b k (fun j cv =>
+      c <- rd cr j ;; col <- wr (fst cv) j c ;; v <- rd vr j ;; val <- wr (snd cv) j v ;; Ok (col, val))
+    (firstn b cr ++ skipn b jc, firstn b vr ++ skipn b jv) =
+  Ok (firstn (b + k) cr ++ skipn (b + k) jc, firstn (b + k) vr ++ skipn (b + k) jv).
+Proof.
+  induction k as [|k IH]; intros b Hb Hv Hc Hjv.
+  - rewrite Nat.add_0_r. reflexivity.
+  - rewrite for_res_step. cbn [fst snd].
+    rewrite (rd_ok cr b 0%nat) by lia. cbn [bind].
+    rewrite (wr_fill cr jc b 0%nat) by lia. cbn [bind].
+    rewrite (rd_ok vr b s0) by lia. cbn [bind].
+    rewrite (wr_fill vr jv b s0) by lia. cbn [bind].
+    rewrite IH by (try assumption; lia).
+    replace (Datatypes.S b + k)%nat with (b + Datatypes.S k)%nat by lia. reflexivity.
+Qed.
+
+Lemma copy_rows (n : nat) (pr cr : list nat) (vr : vec) (jp jc : list nat) (jv : vec) :
+  copy_wf n pr cr vr jp jc jv -> forall k i, (i + k <= n)%nat ->
+  for_res i k (fun i st =>
+    e <- rd pr (i + 1) ;;
+    ptr <- wr (fst st) (i + 1) e ;;
+    b <- rd pr i ;;
+    cv <- for_res b (e - b) (fun j cv =>
+            c <- rd cr j ;; col <- wr (fst cv) j c ;; v <- rd vr j ;; val <- wr (snd cv) j v ;; Ok (col, val)) (snd st) ;;
+    Ok (ptr, cv))
+    (firstn (Datatypes.S i) pr ++ skipn (Datatypes.S i) jp,
+     (firstn (nth i pr 0%nat) cr ++ skipn (nth i pr 0%nat) jc,
+      firstn (nth i pr 0%nat) vr ++ skipn (nth i pr 0%nat) jv)) =
+  Ok (firstn (Datatypes.S (i + k)) pr ++ skipn (Datatypes.S (i + k)) jp,
+      (firstn (nth (i + k) pr 0%nat) cr ++ skipn (nth (i + k) pr 0%nat) jc,
+       firstn (nth (i + k) pr 0%nat) vr ++ skipn (nth (i + k) pr 0%nat) jv)).
+Proof.
+  intros (Hlp & H0 & Hm & Hn & Hv & Hjp & Hjc & Hjv).
+  induction k as [|k IH]; intros i Hi.
+  - rewrite Nat.add_0_r. reflexivity.
+  - rewrite for_res_step. cbn [fst snd].
+    rewrite Nat.add_1_r.
+    rewrite (rd_ok pr (Datatypes.S i) 0%nat) by lia. cbn [bind].
+    rewrite (wr_fill pr jp (Datatypes.S i) 0%nat) by lia. cbn [bind].
+    rewrite (rd_ok pr i 0%nat) by lia. cbn [bind].
+    assert (Hle : nth i pr 0%nat <= nth (Datatypes.S i) pr 0%nat) by (apply Hm; lia).
+    assert (Hend : nth (Datatypes.S i) pr 0%nat <= length cr).
+    { rewrite <- Hn. apply (nth_mono pr n Hm); lia. }
+    rewrite copy_range by (try assumption; lia). cbn [bind].
+    replace (nth i pr 0%nat + (nth (Datatypes.S i) pr 0%nat - nth i pr 0%nat))%nat
+      with (nth (Datatypes.S i) pr 0%nat) by lia.
+    rewrite IH by lia.
+    replace (Datatypes.S i + k)%nat with (i + Datatypes.S k)%nat by lia. reflexivity.
+Qed.
+
+Theorem ll_crs_copy_ok (n : nat) (pr cr : list nat) (vr : vec) (jp jc : list nat) (jv : vec) :
+  copy_wf n pr cr vr jp jc jv -> ll_crs_copy n pr cr vr jp jc jv = Ok (pr, (cr, vr)).
+Proof.
+  intro W. pose proof W as (Hlp & H0 & Hm & Hn & Hv & Hjp & Hjc & Hjv).
+  destruct pr as [|p0 pr']; [simpl in Hlp; lia|]. destruct jp as [|j0 jp']; [simpl in Hjp; lia|].
+  cbn [nth] in H0. subst p0. simpl in Hlp, Hjp.
+  pose proof (copy_rows n (0%nat :: pr') cr vr (j0 :: jp') jc jv W n 0 ltac:(lia)) as H.
+  change (nth 0 (0%nat :: pr') 0%nat) with 0%nat in H.
+  cbn [firstn skipn app plus] in H.
+  unfold ll_crs_copy. cbn [rd nth_error bind wr].
+  refine (eq_trans H _). rewrite Hn.
+  rewrite !firstn_all2 by lia. rewrite !skipn_all2 by lia. rewrite !app_nil_r. reflexivity.
+Qed.
+
+(* the constructed matrix does not depend on what the fresh arrays contained *)
+Corollary ll_crs_copy_junk_independent n (pr cr : list nat) (vr : vec) (jp jc jp' jc' : list nat) (jv jv' : vec) :
+  copy_wf n pr cr vr jp jc jv -> copy_wf n pr cr vr jp' jc' jv' ->
+  ll_crs_copy n pr cr vr jp jc jv = ll_crs_copy n pr cr vr jp' jc' jv'.
+Proof. intros W W'. rewrite !ll_crs_copy_ok by assumption. reflexivity. Qed.
+
+Corollary ll_crs_copy_no_oob n (pr cr : list nat) (vr : vec) (jp jc : list nat) (jv : vec) :
+  copy_wf n pr cr vr jp jc jv -> ll_crs_copy n pr cr vr jp jc jv <> ErrOOB.
+Proof. intro W. rewrite ll_crs_copy_ok by assumption. discriminate. Qed.
+
+End Copy.
+
 (* ------------------------------------------------------------------ the checks bite *)
 From Amgcl Require Import QcInst.
 (* a column index outside x, a short y, a ptr array that runs past col: all ErrOOB *)
